@@ -12,7 +12,10 @@ repo, out = sys.argv[1], sys.argv[2]
 workers = int(sys.argv[3]) if len(sys.argv) > 3 else 8
 here = os.path.dirname(os.path.dirname(os.path.abspath(__file__)))
 nota = os.environ.get('NOTACHECK', os.path.join(here, 'bin', 'notacheck'))
-guards = json.loads(subprocess.check_output([os.path.join(here, 'bin', 'guardmut'), '-dir', repo]))
+kinds = os.environ.get('KINDS')  # e.g. KINDS=if-stay,case-stay: the tests whose body stays in the flow (needs -stay)
+guards = json.loads(subprocess.check_output([os.path.join(here, 'bin', 'guardmut'), '-dir', repo] + (['-stay'] if kinds else [])))
+if kinds:
+    guards = [g for g in guards if g['kind'] in kinds.split(',')]
 tmp = tempfile.mkdtemp(prefix='guardmut.')
 def run(i):
     g = guards[i]
